@@ -226,10 +226,23 @@ class D(Driver):
             with open(os.path.join(canary, name), "w") as f:
                 f.write(f'<!ENTITY leaked "{SECRET}">' if name.endswith("dtd") else SECRET)
         try:
+            def hung():
+                # a hang costs five minutes of wall clock (60 s + the 240 s re-run): one witness per case is
+                # enough, the rest of the case is skipped and counted, so that a tree that hangs is reported
+                # in minutes and before the case alarm could cut the case (and its witnesses) off
+                if any(v.get("rule") == "hang" for v in res["viol"]):
+                    bump(res["counters"], "cases_cut_short_after_a_hang")
+                    return True
+                return False
+
             for doc, label in enumerated or ():
                 self.judge(res, doc, label, tmp, canary)
                 bump(res["features"], "enumerated_cycle_layouts")
+                if hung():
+                    break
             for i in range(n):
+                if hung():
+                    break
                 if rng.random() < 0.12:
                     doc, f, root, meta = gd.mixed_doc(rng, max_depth=2)
                     self.judge(res, doc, "ordinary_mixed", tmp, canary, dict(drop_unsupported=rng.random() < 0.5, allow_text=rng.random() < 0.3))
